@@ -158,7 +158,9 @@ func c16Pair() (server, client *gws.Conn, err error) {
 
 // ---- world: the real hub plus the reference model
 
-const c16Wait = 10 * time.Second
+// c16W: how long a non-blocking hub operation may take before it counts as blocked: two orders of
+// magnitude above its latency on an idle machine, stretched when the machine is starved.
+func c16W() time.Duration { return evid.Stretch(10 * time.Second) }
 
 type c16World struct {
 	c       *c16Case
@@ -283,12 +285,12 @@ func (w *c16World) do(what string, f func()) bool {
 	case p := <-w.panicCh:
 		w.failf("c16.hub-loop-panic", "the hub loop panicked during %s: %v", what, p)
 		return false
-	case <-time.After(c16Wait):
+	case <-time.After(c16W()):
 		if w.overfill {
-			w.failf("c16.handler-overfills-hub-queue", "%s did not return within %v: a handler queued more broadcasts than the hub's channel buffers (256) hold while the hub loop, their only consumer, was running that handler", what, c16Wait)
+			w.failf("c16.handler-overfills-hub-queue", "%s did not return within %v: a handler queued more broadcasts than the hub's channel buffers (256) hold while the hub loop, their only consumer, was running that handler", what, c16W())
 			return false
 		}
-		w.failf("c16.deadlock", "%s did not return within %v (hub loop blocked)", what, c16Wait)
+		w.failf("c16.deadlock", "%s did not return within %v (hub loop blocked)", what, c16W())
 		return false
 	}
 }
@@ -571,7 +573,7 @@ func (w *c16World) apply(idx int, o c16Op) {
 	// Connection.Close may hand its unregister request to a helper goroutine,
 	// which no channel length shows: wait (bounded) for the registrations the
 	// model expects before judging.
-	deadline := time.Now().Add(c16Wait)
+	deadline := time.Now().Add(c16W())
 	for {
 		if !w.barrier(what) {
 			return
